@@ -239,7 +239,7 @@ def run_check(P, tier="quick", seed=0, max_search_s=None):
         # neighbourhood of mismatching cases first
         cand_iter = []
         for (g, i) in mism[:20]:
-            cand_iter.extend(P.shrink(records[i][0]))
+            cand_iter.extend(getattr(P, "neighbours", P.shrink)(records[i][0]))      # cases near the ones on which model and implementation disagree
         def chain():
             for c in cand_iter:
                 yield c
